@@ -500,138 +500,153 @@ Section Tokenize.
     if slen leader =? 1 then str_eqb leader other
     else all_decimal (removelast leader) && all_decimal (removelast other) && (last_char leader =? last_char other).
 
-  Fixpoint tokenize_block (fuel : nat) (lines : list str) (start_line : Z) (fn : pstate)
-    : list pre * bool * pstate :=
-    match fuel with
-    | O => ([], false, fn)
-    | S fuel' =>
-      (* ListItem.read(lines, prev_marker): item, lines consumed, next marker, footnotes *)
-      let read_item := fun (after : list str) (ln : Z) (prev : option (Z * Z * str * str)) (fn : pstate) =>
-        match after with
-        | [] => (PItem ln [] false 0 0 [], O, None, fn)
-        | line :: r =>
-          let mk := match prev with Some m => Some m | None => parse_marker line end in
-          match mk with
-          | None => (PItem ln [] false 0 0 [], 1%nat, None, fn)
-          | Some (indentation, prepend, leader, content) =>
-            if is_blank content then
-              let prepend' := indentation + slen leader + 1 in
-              let nb := count_blank r in
-              match nb with
-              | S _ =>
-                let rest := skipn nb r in
-                (PItem ln [] true indentation prepend' leader, S nb,
-                 match rest with nl :: _ => parse_marker nl | [] => None end, fn)
-              | O =>
-                let '(buf, taken, next_marker) := item_loop r prepend' [] 1%nat O in
-                let '(entries, loose, fn') := tokenize_block fuel' buf (ln + 1) fn in
-                (PItem ln entries loose indentation prepend' leader, taken, next_marker, fn')
-              end
-            else
-              let '(buf, taken, next_marker) := item_loop r prepend [content] 1%nat O in
-              let '(entries, loose, fn') := tokenize_block fuel' buf ln fn in
-              (PItem ln entries loose indentation prepend leader, taken, next_marker, fn')
-          end
-        end in
-      (* List.read *)
-      let read_list := (fix read_list (n : nat) (after : list str) (ln : Z) (leader : option str) (next_marker : option (Z * Z * str * str))
-                             (items_rev : list pre) (consumed : nat) (fn : pstate) {struct n} : list pre * nat * pstate :=
-        match n with
-        | O => (rev items_rev, consumed, fn)
-        | S n' =>
-          let '(item, taken, nm, fn') := read_item after ln next_marker fn in
-          let item_leader := match item with PItem _ _ _ _ _ l => l | _ => [] end in
-          let ok := match leader with None => true | Some l => same_marker_type l item_leader end in
-          if negb ok then (rev items_rev, consumed, fn)         (* lines.set_pos(anchor): the item is not taken *)
-          else
-            let leader' := match leader with None => Some item_leader | Some _ => leader end in
-            match nm with
-            | None => (rev (item :: items_rev), (consumed + taken)%nat, fn')
-            | Some _ => read_list n' (skipn taken after) (ln + nlines taken) leader' nm (item :: items_rev) (consumed + taken)%nat fn'
+  (* open recursion: `rec` is tokenize_block one nesting level down *)
+  Section Level.
+    Variable rec : list str -> Z -> pstate -> list pre * bool * pstate.
+
+    (* ListItem.read(lines, prev_marker): item, lines consumed, next marker, state *)
+    Definition read_item (after : list str) (ln : Z) (prev : option (Z * Z * str * str)) (st : pstate)
+      : pre * nat * option (Z * Z * str * str) * pstate :=
+      match after with
+      | [] => (PItem ln [] false 0 0 [], O, None, st)
+      | line :: r =>
+        let mk := match prev with Some m => Some m | None => parse_marker line end in
+        match mk with
+        | None => (PItem ln [] false 0 0 [], 1%nat, None, st)
+        | Some (indentation, prepend, leader, content) =>
+          if is_blank content then
+            let prepend' := indentation + slen leader + 1 in
+            let nb := count_blank r in
+            match nb with
+            | S _ =>
+              let rest := skipn nb r in
+              (PItem ln [] true indentation prepend' leader, S nb,
+               match rest with nl :: _ => parse_marker nl | [] => None end, st)
+            | O =>
+              let '(buf, taken, next_marker) := item_loop r prepend' [] 1%nat O in
+              let '(entries, loose, st') := rec buf (ln + 1) st in
+              (PItem ln entries loose indentation prepend' leader, taken, next_marker, st')
             end
-        end) in
-      (* the dispatch loop *)
-      (fix loop (n : nat) (after : list str) (ln : Z) (acc_rev : list pre) (loose : bool) (fn : pstate) {struct n}
-         : list pre * bool * pstate :=
-         match n with
-         | O => (rev acc_rev, loose, fn)
-         | S n' =>
-           match after with
-           | [] => (rev acc_rev, loose, fn)
-           | line :: rest =>
-             (* for token_type in token_types: if start(line): result = read(lines) ... *)
-             let try := (fix try (ts : list block_kind) : option (pre * nat * pstate) :=
-               match ts with
-               | [] => None
-               | k :: ts' =>
-                 let r :=
-                   match k with
-                   | BK_BlockCode =>
-                     if blockcode_start line then let '(buf, c) := blockcode_read after in Some (PBlockCode ln buf, c, fn) else None
-                   | BK_Heading =>
-                     match heading_start line with Some (lv, ct, cl) => Some (PHeading ln lv ct cl, 1%nat, fn) | None => None end
-                   | BK_Quote =>
-                     if quote_start line then
-                       let '(buf, c) := quote_lines after in
-                       (* Paragraph.parse_setext = False ... = True around the nested call *)
-                       let '(entries, _, _) := tokenize_block fuel' buf ln (mkPs false) in
-                       Some (PQuote ln entries, c, mkPs true)
-                     else None
-                   | BK_CodeFence =>
-                     match codefence_start line with
-                     | Some (indent, leader, info, lang) =>
-                       let '(buf, c) := fence_loop rest indent leader [] 1%nat in
-                       Some (PCodeFence ln buf indent leader info lang, c, fn)
-                     | None => None
-                     end
-                   | BK_ThematicBreak => if thematic_start line then Some (PThematic ln [line], 1%nat, fn) else None
-                   | BK_List =>
-                     if list_start line then
-                       let '(items, c, fn') := read_list (S (length after)) after ln None None [] O fn in
-                       (* last_parse_buffer.loose = len(last_parse_buffer) > 1 and last_parse_buffer.loose *)
-                       let items' := match rev items with
-                                     | PItem l e lo i p ld :: before =>
-                                       rev (PItem l e ((1 <? nlines (length e)) && lo) i p ld :: before)
-                                     | _ => items
-                                     end in
-                       Some (PList ln items', c, fn')
-                     else None
-                   | BK_Table =>
-                     if table_start line then
-                       match table_read after with Some buf => Some (PTable ln buf, length buf, fn) | None => None end
-                     else None
-                   | BK_Footnote | BK_LinkReferenceDefinitionBlock =>
-                     if footnote_start line then
-                       match footnote_read after with
-                       | Some (defs, c) => Some (PFootnote ln defs, c, fn)
-                       | None => None
-                       end
-                     else None
-                   | BK_Paragraph =>
-                     if paragraph_start line then
-                       let '(buf, c, is_setext) := para_loop types (ps_setext fn) rest [line] 1%nat in
-                       Some (if is_setext then PSetext ln buf else PParagraph ln buf, c, fn)
-                     else None
-                   | BK_HtmlBlock =>
-                     match htmlblock_start line with
-                     | Some (_, end_cond) => let '(buf, c) := html_loop after end_cond [] O in Some (PHtmlBlock ln buf, c, fn)
-                     | None => None
-                     end
-                   | BK_BlankLine => if blankline_start line then Some (PBlankLine ln, 1%nat, fn) else None
-                   end in
-                 match r with Some x => Some x | None => try ts' end
-               end) in
-             match try types with
-             | Some (p, consumed, fn') =>
-               (* a reader that consumed nothing would spin forever in the code; the model stops (see C01) *)
-               match consumed with
-               | O => (rev (p :: acc_rev), loose, fn')
-               | _ => loop n' (skipn consumed after) (ln + nlines consumed) (p :: acc_rev) loose fn'
-               end
-             | None => loop n' rest (ln + 1) acc_rev true fn            (* unmatched newlines *)
-             end
-           end
-         end) (S (length lines)) lines start_line [] false fn
+          else
+            let '(buf, taken, next_marker) := item_loop r prepend [content] 1%nat O in
+            let '(entries, loose, st') := rec buf ln st in
+            (PItem ln entries loose indentation prepend leader, taken, next_marker, st')
+        end
+      end.
+
+    (* List.read *)
+    Fixpoint read_list (n : nat) (after : list str) (ln : Z) (leader : option str) (next_marker : option (Z * Z * str * str))
+             (items_rev : list pre) (consumed : nat) (st : pstate) {struct n} : list pre * nat * pstate :=
+      match n with
+      | O => (rev items_rev, consumed, st)
+      | S n' =>
+        let '(item, taken, nm, st') := read_item after ln next_marker st in
+        let item_leader := match item with PItem _ _ _ _ _ l => l | _ => [] end in
+        let ok := match leader with None => true | Some l => same_marker_type l item_leader end in
+        if negb ok then (rev items_rev, consumed, st)         (* lines.set_pos(anchor): the item is not taken *)
+        else
+          let leader' := match leader with None => Some item_leader | Some _ => leader end in
+          match nm with
+          | None => (rev (item :: items_rev), (consumed + taken)%nat, st')
+          | Some _ => read_list n' (skipn taken after) (ln + nlines taken) leader' nm (item :: items_rev) (consumed + taken)%nat st'
+          end
+      end.
+
+    (* token_type.start(line) and, if it holds, token_type.read(lines): payload, lines consumed, state *)
+    Definition start_read (k : block_kind) (after : list str) (ln : Z) (st : pstate) : option (pre * nat * pstate) :=
+      match after with
+      | [] => None
+      | line :: rest =>
+        match k with
+        | BK_BlockCode =>
+          if blockcode_start line then let '(buf, c) := blockcode_read after in Some (PBlockCode ln buf, c, st) else None
+        | BK_Heading =>
+          match heading_start line with Some (lv, ct, cl) => Some (PHeading ln lv ct cl, 1%nat, st) | None => None end
+        | BK_Quote =>
+          if quote_start line then
+            let '(buf, c) := quote_lines after in
+            (* Paragraph.parse_setext = False ... = True around the nested call *)
+            let '(entries, _, _) := rec buf ln (mkPs false) in
+            Some (PQuote ln entries, c, mkPs true)
+          else None
+        | BK_CodeFence =>
+          match codefence_start line with
+          | Some (indent, leader, info, lang) =>
+            let '(buf, c) := fence_loop rest indent leader [] 1%nat in
+            Some (PCodeFence ln buf indent leader info lang, c, st)
+          | None => None
+          end
+        | BK_ThematicBreak => if thematic_start line then Some (PThematic ln [line], 1%nat, st) else None
+        | BK_List =>
+          if list_start line then
+            let '(items, c, st') := read_list (S (length after)) after ln None None [] O st in
+            (* last_parse_buffer.loose = len(last_parse_buffer) > 1 and last_parse_buffer.loose *)
+            let items' := match rev items with
+                          | PItem l e lo i p ld :: before =>
+                            rev (PItem l e ((1 <? nlines (length e)) && lo) i p ld :: before)
+                          | _ => items
+                          end in
+            Some (PList ln items', c, st')
+          else None
+        | BK_Table =>
+          if table_start line then
+            match table_read after with Some buf => Some (PTable ln buf, length buf, st) | None => None end
+          else None
+        | BK_Footnote | BK_LinkReferenceDefinitionBlock =>
+          if footnote_start line then
+            match footnote_read after with
+            | Some (defs, c) => Some (PFootnote ln defs, c, st)
+            | None => None
+            end
+          else None
+        | BK_Paragraph =>
+          if paragraph_start line then
+            let '(buf, c, is_setext) := para_loop types (ps_setext st) rest [line] 1%nat in
+            Some (if is_setext then PSetext ln buf else PParagraph ln buf, c, st)
+          else None
+        | BK_HtmlBlock =>
+          match htmlblock_start line with
+          | Some (_, end_cond) => let '(buf, c) := html_loop after end_cond [] O in Some (PHtmlBlock ln buf, c, st)
+          | None => None
+          end
+        | BK_BlankLine => if blankline_start line then Some (PBlankLine ln, 1%nat, st) else None
+        end
+      end.
+
+    (* for token_type in token_types: the first one whose start() holds and whose read() returns a result *)
+    Fixpoint try_types (ts : list block_kind) (after : list str) (ln : Z) (st : pstate) : option (pre * nat * pstate) :=
+      match ts with
+      | [] => None
+      | k :: ts' => match start_read k after ln st with Some x => Some x | None => try_types ts' after ln st end
+      end.
+
+    (* the dispatch loop of tokenize_block *)
+    Fixpoint dispatch_loop (n : nat) (after : list str) (ln : Z) (acc_rev : list pre) (loose : bool) (st : pstate) {struct n}
+      : list pre * bool * pstate :=
+      match n with
+      | O => (rev acc_rev, loose, st)
+      | S n' =>
+        match after with
+        | [] => (rev acc_rev, loose, st)
+        | _ :: rest =>
+          match try_types types after ln st with
+          | Some (p, consumed, st') =>
+            (* a reader that consumed nothing would spin forever in the code; the model stops (see C01) *)
+            match consumed with
+            | O => (rev (p :: acc_rev), loose, st')
+            | _ => dispatch_loop n' (skipn consumed after) (ln + nlines consumed) (p :: acc_rev) loose st'
+            end
+          | None => dispatch_loop n' rest (ln + 1) acc_rev true st            (* unmatched newlines *)
+          end
+        end
+      end.
+  End Level.
+
+  (* tokenize_block(lines, token_types, start_line); fuel bounds the nesting depth *)
+  Fixpoint tokenize_block (fuel : nat) (lines : list str) (start_line : Z) (st : pstate) : list pre * bool * pstate :=
+    match fuel with
+    | O => ([], false, st)
+    | S fuel' => dispatch_loop (tokenize_block fuel') (S (length lines)) lines start_line [] false st
     end.
 End Tokenize.
 
